@@ -123,6 +123,7 @@ Definition w6 := fld TyString [ILength [AMin (n_ "1"); AMsg (L """a\\nb""") (L "
 Definition w7 := fld (TyVec (TyOpt TyString)) [ILength [AMin (n_ "2")]].
 Definition w8 := fld TyString [IEmail (Some [m_ "m"])].
 Definition w9 := fld TyNum [IRange [AMin (n_ "9007199254740993")]].
+Definition w10 := fld TyString [ILength [AEqual (n_ "5")]].
 
 Lemma kf1_refuted : kf_neg_bound w1 = true /\ fails w1.
 Proof. split; vm_compute; reflexivity. Qed.
@@ -151,19 +152,26 @@ Proof. split; vm_compute; reflexivity. Qed.
 Lemma kf9_refuted : kf_f64_inexact dispf_small w9 = true /\ fails w9.
 Proof. split; vm_compute; reflexivity. Qed.
 
+Lemma kf10_refuted : kf_length_equal w10 = true /\ fails w10.
+Proof. split; vm_compute; reflexivity. Qed.
+
 (* each witness lies in its own class only (the classes are independent triggers); the repaired ones in none *)
 Lemma witnesses_separate :
-  map (kf_flags dispf_small) [w1; w2; w3; w4; w6; w8; w9] =
-  [[true; false; false; false; false; false; false];
-   [false; true; false; false; false; false; false];
-   [false; false; true; false; false; false; false];
-   [false; false; false; true; false; false; false];
-   [false; false; false; false; true; false; false];
-   [false; false; false; false; false; true; false];
-   [false; false; false; false; false; false; true]]
+  map (kf_flags dispf_small) [w1; w2; w3; w4; w6; w8; w9; w10] =
+  [[true; false; false; false; false; false; false; false];
+   [false; true; false; false; false; false; false; false];
+   [false; false; true; false; false; false; false; false];
+   [false; false; false; true; false; false; false; false];
+   [false; false; false; false; true; false; false; false];
+   [false; false; false; false; false; true; false; false];
+   [false; false; false; false; false; false; true; false];
+   [false; false; false; false; false; false; false; true]]
   /\ map (kf_any dispf_small) [w5; w5b; w7] = [false; false; false].
 Proof. split; vm_compute; reflexivity. Qed.
 
+(* the argument order and message text the seed C11-6 needs: message first, a word that is no keyword of
+   the scanners (equal), then a bound - outside every class and exact on the faithful model *)
+Definition g4 := fld (TyOpt TyString) [ILength [m_ "must not be equal to 5, or = 6"; ACode (L """size"""); AMax (n_ "5")]].
 (* a clean field of each kind, for the non-vacuity examples *)
 Definition g1 := fld (TyOpt TyString)
   [ILength [AMin (n_ "1"); AMax (n_ "50"); AMsg (L """say \""hi\"" \\ there (1, 2 = 3""") (L "say ""hi"" \ there (1, 2 = 3")]; IEmail None].
@@ -172,7 +180,7 @@ Definition g3 := fld (TyVec TyString) [ILength [AMax (n_ "8")]; IOther (L "requi
 Lemma clean_examples :
   forallb (fun f => in_domain f && negb (kf_any dispf_small f) &&
                     match field_chain dispf_small f with Ok (_, chain) => c11_field_ok f chain | Panic => false end)
-          [g1; g2; g3] = true.
+          [g1; g2; g3; g4] = true.
 Proof. vm_compute. reflexivity. Qed.
 
 (* ------------------------------------------------------------------ reading back what schema_builder prints *)
